@@ -94,6 +94,70 @@ type Inv struct {
 	usedSem map[string]bool
 	used    map[string]bool
 	keys    map[string]int
+	// reach is the set of functions on the trees being inventoried (call sites outside it - genesis import, tests -
+	// are not this inventory's concern when a fact is established "at every call site")
+	reach map[*ssa.Function]*ssa.Function
+}
+
+// treeCallers: the static call sites of fn that lie on the inventoried trees.
+func (iv *Inv) treeCallers(fn *ssa.Function) []*Site {
+	all := iv.w.CG().Callers[fn]
+	if iv.reach == nil {
+		return all
+	}
+	var out []*Site
+	for _, cs := range all {
+		if _, ok := iv.reach[cs.Caller]; ok {
+			out = append(out, cs)
+		}
+	}
+	return out
+}
+
+// structFieldNonEmpty: field f of the struct handed to fn as parameter idx is a non-empty string at every call site
+// on the trees: built there as a literal whose field is non-empty, or handed through from the caller's own parameter
+// (decided one level further up).
+func (iv *Inv) structFieldNonEmpty(fn *ssa.Function, idx int, f string, depth int) (bool, string) {
+	if depth > 4 {
+		return false, "call chain too deep"
+	}
+	callers := iv.treeCallers(fn)
+	if len(callers) == 0 {
+		return false, "no static caller"
+	}
+	var hows []string
+	for _, cs := range callers {
+		if cs.Common().IsInvoke() || idx >= len(cs.Common().Args) {
+			return false, "dynamic caller"
+		}
+		arg := cs.Common().Args[idx]
+		if fv := fieldStoredInto(arg, f); fv != nil {
+			ok, how := iv.stringNonEmpty(cs.Caller, cs.Instr, fv, depth+1)
+			if !ok {
+				return false, funcName(cs.Caller) + ": " + how
+			}
+			hows = append(hows, funcName(cs.Caller)+": "+how)
+			continue
+		}
+		// handed through from the caller's own parameter
+		through := -1
+		if pname := rootParam(arg); pname != "" {
+			for j, x := range cs.Caller.Params {
+				if x.Name() == pname && types.Identical(x.Type(), arg.Type()) {
+					through = j
+				}
+			}
+		}
+		if through < 0 {
+			return false, funcName(cs.Caller) + ": the record comes from elsewhere"
+		}
+		ok, how := iv.structFieldNonEmpty(cs.Caller, through, f, depth+1)
+		if !ok {
+			return false, how
+		}
+		hows = append(hows, how)
+	}
+	return true, strings.Join(hows, " | ")
 }
 
 func newInv(w *World, r *Report, rule string, vetted map[string]string) *Inv {
@@ -808,6 +872,7 @@ func shortCallee(s string) string {
 }
 
 func (iv *Inv) discharge(s invSite, reach map[*ssa.Function]*ssa.Function) {
+	iv.reach = reach
 	key := iv.key(s)
 	pos := iv.w.Pos(s.instr.Pos())
 	if !s.instr.Pos().IsValid() {
@@ -1583,31 +1648,8 @@ func (iv *Inv) stringNonEmpty(fn *ssa.Function, at ssa.Instruction, s ssa.Value,
 				}
 			}
 			if p != nil && typeString(p.Type()) == typeString(T) {
-				callers := cg.Callers[fn]
-				allOK := len(callers) > 0
-				var hows []string
-				for _, cs := range callers {
-					if cs.Common().IsInvoke() || idx >= len(cs.Common().Args) {
-						allOK = false
-						break
-					}
-					arg := cs.Common().Args[idx]
-					fv := fieldStoredInto(arg, f)
-					if fv == nil {
-						// the struct itself came from elsewhere (e.g. a stored record): decide by the record's validation
-						allOK = false
-						break
-					}
-					ok, how := iv.stringNonEmpty(cs.Caller, cs.Instr, fv, depth+1)
-					if !ok {
-						allOK = false
-						hows = append(hows, funcName(cs.Caller)+": "+how)
-						break
-					}
-					hows = append(hows, funcName(cs.Caller)+": "+how)
-				}
-				if allOK {
-					return true, "field " + f + " set by every caller {" + strings.Join(hows, " | ") + "}"
+				if ok, how := iv.structFieldNonEmpty(fn, idx, f, depth); ok {
+					return true, "field " + f + " set by every caller {" + how + "}"
 				}
 			}
 		}
